@@ -124,7 +124,7 @@ def check_array(disp, a, nd, title, mode, ctx, noprint=False):
     desc = {"kind": "array", "shape": list(a.shape), "dtype": str(a.dtype), "nd": nd, "title": title, "mode": mode,
             "values": a.ravel().tolist()[:64]}
     ctx.case({"k": "array", "shape": list(a.shape), "dtype": str(a.dtype), "nd": nd, "tp": len(title) % 2, "mode": mode,
-              "v": hash(a.tobytes())}, a.size >= 2)
+              "v": hash(a.tobytes())}, a.size >= 2, sample=desc if a.size >= 2 else None)
     kw = {"title": title, "nd": nd, "mode": mode}
     if noprint:
         kw["noprint"] = True
